@@ -13,9 +13,10 @@ Follows the source:
 * `TimeSeries.copy`, `__add__ … __idiv__`     → `seriesCopy`, `seriesArith`, `seriesInplace`
 * `periodogram_csd`: reshape in place – compute – restore → `csd` (three steps, failure points)
 
-`Cfg` switches select the unrepaired behaviour site by site (`current` = the source as it stands:
-`_convert_if_needed` and `_convert_and_check_uniformity` are repaired, `__setitem__` and
-`periodogram_csd` are not) or the intended one (`fixed`); `beforeFirstRepair` = the snapshot.
+`Cfg` switches select the unrepaired behaviour site by site: `fixed` = the intended behaviour
+(= /repo HEAD after commits 88b21bc and 90529f2); `current` = the source as it stood when this
+check was first run (`_convert_if_needed` and `_convert_and_check_uniformity` repaired,
+`__setitem__` and `periodogram_csd` not); `beforeFirstRepair` = the original snapshot.
 Not modelled: float64 / int32 operands (the harness snapshots them), dict-valued metadata contents.
 -/
 import Nitime.Model.C01
